@@ -161,7 +161,7 @@ class HTTPException(Response, Exception):
         headers = kwargs.pop('headers', None)
         mimetype = kwargs.pop('mimetype', DEFAULT_MIME)
         content_type = kwargs.pop('content_type', None)
-        super(HTTPException, self).__init__(response=self.to_text(),
+        super(HTTPException, self).__init__(response=self._encode_body(self.to_text()),
                                             status=self.code,
                                             headers=headers,
                                             mimetype=DEFAULT_MIME,
@@ -170,13 +170,21 @@ class HTTPException(Response, Exception):
             self.adapt(mimetype)
         return
 
+    def _encode_body(self, text):
+        # text that cannot be encoded (e.g. lone surrogates in the message
+        # of an uncaught exception) must not make building the error
+        # response itself fail: such characters are shown escaped
+        if isinstance(text, unicode):
+            return text.encode(self.charset, 'backslashreplace')
+        return text
+
     def adapt(self, mimetype=None):
         try:
             fmt_name = MIME_SUPPORT_MAP[mimetype]
         except KeyError:
             fmt_name, mimetype = 'text', 'text/plain'
         _method = getattr(self, 'to_' + fmt_name)
-        self.data = _method()
+        self.data = self._encode_body(_method())
         self.headers['Content-Type'] = get_content_type(mimetype, self.charset)
 
     def transcribe(self, request):
